@@ -1,0 +1,9 @@
+//go:build verif
+
+package stage
+
+import "github.com/arm-doe/sts/verifhook"
+
+func verifHookEnq(path string) {
+	verifhook.At("stage.enq", "what", "finalize", "path", path)
+}
